@@ -90,10 +90,10 @@ var registry = map[string]*prop{}
 func register[C any](p PropT[C]) {
 	q := &prop{
 		id: p.ID, rule: p.Rule, assumptions: p.Assumptions,
-		gen:      func(t *rapid.T) any { return p.Gen(t) },
-		newCase:  func() any { return new(C) },
-		check:    func(c any, f *Fails) { p.Check(c.(*C), f) },
-		classify: func(c any) (bool, []string) { return p.Classify(c.(*C)) },
+		gen:        func(t *rapid.T) any { return p.Gen(t) },
+		newCase:    func() any { return new(C) },
+		check:      func(c any, f *Fails) { p.Check(c.(*C), f) },
+		classify:   func(c any) (bool, []string) { return p.Classify(c.(*C)) },
 		replayRuns: p.ReplayRuns,
 	}
 	if p.Sweep != nil {
@@ -171,21 +171,21 @@ func matchKnown(propID string, c any, f Fail) string {
 
 type stats struct {
 	mu           sync.Mutex
-	Property     string           `json:"property"`
-	Mode         string           `json:"mode"`
-	Rule         string           `json:"rule"`
-	Assumptions  []string         `json:"assumptions"`
-	Evaluations  int64            `json:"evaluations"`
-	Nontrivial   int64            `json:"nontrivial"`
-	Classes      map[string]int64 `json:"classes"`
-	Excluded     map[string]int64 `json:"excluded_known"`
-	Samples      []json.RawMessage `json:"samples"`
+	Property     string                     `json:"property"`
+	Mode         string                     `json:"mode"`
+	Rule         string                     `json:"rule"`
+	Assumptions  []string                   `json:"assumptions"`
+	Evaluations  int64                      `json:"evaluations"`
+	Nontrivial   int64                      `json:"nontrivial"`
+	Classes      map[string]int64           `json:"classes"`
+	Excluded     map[string]int64           `json:"excluded_known"`
+	Samples      []json.RawMessage          `json:"samples"`
 	ClassSamples map[string]json.RawMessage `json:"class_samples"`
-	LastSample   json.RawMessage  `json:"last_sample,omitempty"`
-	Violations   []violation      `json:"violations"`
-	HarnessErr   string           `json:"harness_error,omitempty"`
-	SweepScopes  []string         `json:"sweep_scopes,omitempty"`
-	Extra        map[string]int64 `json:"extra,omitempty"`
+	LastSample   json.RawMessage            `json:"last_sample,omitempty"`
+	Violations   []violation                `json:"violations"`
+	HarnessErr   string                     `json:"harness_error,omitempty"`
+	SweepScopes  []string                   `json:"sweep_scopes,omitempty"`
+	Extra        map[string]int64           `json:"extra,omitempty"`
 	hashes       map[uint64]struct{}
 }
 
